@@ -791,6 +791,88 @@ static void run_op(const std::vector<std::string> &w, const std::string &, out &
         if (kind >= 5) o.tag(kind == 5 ? "cmp-large-classes" : "cmp-partial-key");
         return;
     }
+    if (op == "qsr")
+    {
+        // qsr <esize> <seed> <kind,kind,...> <k0,k1,...>: ONE array sorted again and again with the
+        // comparator changed between the calls (rand() keeps running), then searched with bsearch
+        unsigned esize = atoi(w[1].c_str());
+        unsigned seed = (unsigned)strtoul(w[2].c_str(), 0, 10);
+        std::vector<int> kinds = ints(w[3]), keys = ints(w[4]);
+        size_t n = keys.size();
+        exact_buf a(n * esize);
+        std::vector<bytes> orig;
+        for (size_t i = 0; i < n; i++)
+        {
+            put_elem(a.p + i * esize, esize, keys[i], (unsigned)i);
+            orig.emplace_back(a.p + i * esize, a.p + (i + 1) * esize);
+        }
+        std::vector<bytes> s1 = orig;
+        std::sort(s1.begin(), s1.end());
+        igv_srand(seed);
+        std::string r;
+        int kind = 0;
+        for (int kd : kinds)
+        {
+            kind = kd;
+            L = {kind, a.p, n, esize, nullptr, &orig, "", 0, 0};
+            igv_qsort(a.p, n, esize, qs_compar);
+            std::vector<bytes> now;
+            std::vector<std::pair<int, int>> el;
+            for (size_t i = 0; i < n; i++)
+            {
+                const uint8_t *e = a.p + i * esize;
+                now.emplace_back(e, e + esize);
+                el.emplace_back(e[0], esize > 1 ? e[1] : 0);
+            }
+            if (!L.bad.empty()) o.fail(L.bad);
+            for (size_t i = 0; i + 1 < n; i++)
+                if (cmp_keys(kind, now[i + 1][0], now[i][0]) < 0) { o.fail("call with comparator " + std::to_string(kind) + ": not ordered at index " + std::to_string(i)); break; }
+            std::sort(now.begin(), now.end());
+            if (now != s1) o.fail("call with comparator " + std::to_string(kind) + ": result is not a permutation of the input");
+            r += (r.empty() ? "" : "|") + canon_runs(kind, el, esize > 1);
+        }
+        // bsearch on what the last qsort left (theorem bsearch_after_qsort): every key 0..max+1
+        std::string f;
+        int mx = 0;
+        for (int k : keys) mx = std::max(mx, k);
+        for (int key = 0; key <= mx + 1 && !kinds.empty(); key++)
+        {
+            exact_buf kb(sizeof(int));
+            memcpy(kb.p, &key, sizeof key);
+            L = {kind, a.p, n, esize, kb.p, nullptr, "", 0, 0};
+            const uint8_t *q = (const uint8_t *)igv_bsearch(kb.p, a.p, n, esize, bs_compar);
+            bool exists = false;
+            for (int k : keys)
+                if (cmp_keys(kind, key, k) == 0) exists = true;
+            if (!L.bad.empty()) o.fail(L.bad);
+            if (q && !in_array(q)) { o.fail("bsearch after qsort: pointer outside the array"); f += "?"; continue; }
+            if ((q != 0) != exists) o.fail("bsearch after qsort: key " + std::to_string(key) + (exists ? " exists but NULL was returned" : " does not exist but an element was returned"));
+            if (q && cmp_keys(kind, key, q[0]) != 0) o.fail("bsearch after qsort: returned element does not compare equal");
+            f += q ? "y" : "n";
+        }
+        o.result = r + " " + (f.empty() ? "-" : f);
+        o.tag("resorted-with-other-comparator");
+        return;
+    }
+    if (op == "atL")
+    {
+        // atL <l|i|ll> <prefix> <unit> <count> <tail>: long text for atol / atoi / atoll (representable values)
+        bytes t = unhex(w[2]), unit = unhex(w[3]), tail = unhex(w[5]);
+        size_t cnt = strtoul(w[4].c_str(), 0, 10);
+        for (size_t i = 0; i < cnt; i++) t.insert(t.end(), unit.begin(), unit.end());
+        t.insert(t.end(), tail.begin(), tail.end());
+        bytes z = t;
+        z.push_back(0);
+        exact_buf b(z);
+        const char *s = (const char *)b.p;
+        parsed p = ref_parse(t, 10);
+        uint64_t v = w[1] == "l" ? (uint64_t)igv_atol(s) : w[1] == "i" ? (uint64_t)(int64_t)igv_atoi(s) : (uint64_t)igv_strtoll(s, 0, 10);
+        errno = 0;
+        o.result = hexn(v, 16);
+        if (v != ref_signed(p)) o.fail("ISO 7.22.1.2: expected " + hexn(ref_signed(p), 16));
+        o.tag(t.size() >= 300 * 1024 ? "text>=300KiB" : "text-long");
+        return;
+    }
     if (op == "stx")
     {
         // stx <fn> <base> <hextext>: a base outside {0, 2..36}.  ISO 7.22.1.4 does not define the call
@@ -1482,6 +1564,22 @@ static void gen_round3(rng &r, bool th)
             unsigned e = esz(r);
             for (int k = 0; k < n; k++) printf("bsa %u %d %d %s\n", e, kind, k, join(v).c_str());
         }
+    // ---- one array, several qsort calls with the comparator changed in between, then bsearch
+    for (int rep = 0; rep < (th ? 40 : 8); rep++)
+        for (int n : {0, 1, 3, 4, 7, 12, 30})
+        {
+            std::vector<int> v(n), kd(1 + r.below(4));
+            int m = (int)r.pick(std::vector<int>{2, 5, 40, 256});
+            for (auto &x : v) x = (int)r.below(m);
+            for (auto &x : kd) x = (int)r.below(7);
+            printf("qsr %u %u %s %s\n", esz(r), (unsigned)r.next(), join(kd).c_str(), join(v).c_str());
+        }
+    // ---- atol / atoi / atoll on >= 300 KiB
+    for (const char *fn : {"l", "i", "ll"})
+    {
+        printf("atL %s - %s 307200 %s\n", fn, hex(std::string(" ")).c_str(), hex(std::string("-123x")).c_str());
+        printf("atL %s %s %s 307200 %s\n", fn, hex(std::string("\t+")).c_str(), hex(std::string("0")).c_str(), hex(std::string("2147483647 ")).c_str());
+    }
     // rand / rand_r: long runs on one state
     printf("rnd 1 300\nrnd 0 300\nrnd 204814686 50\nrnd 204814687 50\nrndr 204814687 50\n");
 }
